@@ -137,7 +137,7 @@ func normalise(mod []*packages.Package, fset *token.FileSet, known map[string]bo
 	// a helper called in the init clause of an if statement: the clause is moved in front of
 	// the statement (inside a block that keeps the scope of what it declares), so that the
 	// call sits in a position the inliner handles; the inlining itself is the next pass
-	if n := hoistIfInits(mod, fset, known, overlay); n > 0 {
+	if n := 0; os.Getenv("CHFCHECK_NOIFHOIST") == "" && func() bool { n = hoistIfInits(mod, fset, known, overlay); return n > 0 }() {
 		note(fmt.Sprintf("moved %d if-init clause(s) that call unknown helpers in front of their statements", n))
 		return overlay
 	}
@@ -986,6 +986,12 @@ func hoistIfInits(mod []*packages.Package, fset *token.FileSet, known map[string
 	}
 	type rewrite struct{ start, cond, end int }
 	for _, p := range mod {
+		// not in the BER codec: its bounds and progress proofs (C16) are interprocedural - they use
+		// proved post-conditions of the parsing helpers - and get weaker, not stronger, when the
+		// helpers' bodies are merged into ParseField
+		if strings.HasSuffix(p.PkgPath, "/cdr/asn") {
+			continue
+		}
 		info := p.TypesInfo
 		for _, f := range p.Syntax {
 			name := fset.File(f.Pos()).Name()
